@@ -1,6 +1,7 @@
 package main
 
 import (
+	"sort"
 	"fmt"
 	"os"
 	"regexp"
@@ -22,6 +23,44 @@ func runDiscover(pat string) {
 		fmt.Printf("%s  [%s] accept=%d nAccept=%d\n", k, p.Pos(fn.Pos()), sig.Accept, sig.NAccept)
 		for _, f := range sig.Sorted() {
 			fmt.Printf("    %s\n", f)
+		}
+	}
+}
+
+func runEffects(pat string) {
+	re := regexp.MustCompile(pat)
+	p, err := Load(K1)
+	if err != nil {
+		fmt.Println(err)
+		os.Exit(2)
+	}
+	eff := NewEffects(p)
+	for _, fn := range p.RepoFuncs() {
+		k := funcKey(fn)
+		if !re.MatchString(k) {
+			continue
+		}
+		s := eff.Summary(fn)
+		fmt.Printf("%s [%s]\n", k, p.Pos(fn.Pos()))
+		var ws, rs []string
+		for l, wi := range s.Writes {
+			x := l.String()
+			if wi.ident {
+				x += " (= " + wi.src.String() + ")"
+			}
+			ws = append(ws, x)
+		}
+		for l := range s.Reads {
+			rs = append(rs, l.String())
+		}
+		sort.Strings(ws)
+		sort.Strings(rs)
+		fmt.Printf("  writes: %v\n  reads: %v\n", ws, rs)
+		for h, pos := range s.Haz {
+			fmt.Printf("  hazard: write %s then read %s at %s\n", h.W, h.R, p.Pos(pos))
+		}
+		for _, u := range s.Unknown {
+			fmt.Printf("  unknown: %s\n", u)
 		}
 	}
 }
